@@ -67,7 +67,8 @@ def run(chk):
         alpha = rng.choice(["AC", "ACD", "ACDEF"])
         seqs = ["".join(rng.choice(alpha) for _ in range(L)) for _ in range(n)]
         if rng.random() < 0.5:
-            seqs = ["".join(c if rng.random() > 0.2 else "-" for c in s) for s in seqs]
+            rate = rng.choice([0.2, 0.6])           # 0.6: columns where gaps are the majority (dropped from the consensus)
+            seqs = ["".join(c if rng.random() > rate else "-" for c in s) for s in seqs]
             for i in range(L):                     # every column keeps at least one residue
                 if all(s[i] == "-" for s in seqs):
                     seqs[0] = seqs[0][:i] + rng.choice(alpha) + seqs[0][i + 1:]
@@ -139,23 +140,51 @@ def run(chk):
             data[0] = 4
         nx, ny = rng.random() < 0.5, rng.random() < 0.5
         sx, sy = rng.choice([1.0, 2.0, 0.5]), rng.choice([1.0, 3.0])
+        lx, ly = rng.random() < 0.5, rng.random() < 0.5
+        tx, ty = rng.choice([None, "plus1", "double"]), rng.choice([None, "plus1", "double"])
+        tf = {None: None, "plus1": (lambda v: v + 1), "double": (lambda v: v * 2)}
+        own_ax = rng.random() < 0.7
         fig, ax = plt.subplots()
+        other_fig, other_ax = (None, None)
+        if own_ax:
+            other_fig, other_ax = plt.subplots()       # the current axes are NOT the ones passed in
         arr = [float("nan") if d is None else d for d in data]
-        real = core.call_real(lambda: pl.rankfrequency(arr, ax=ax, normalize_x=nx, normalize_y=ny, scalex=sx, scaley=sy)[0].get_xydata().tolist())
-        plt.close(fig)
+        if rng.random() < 0.3:
+            arr = pd.Series(arr, index=rng.sample(range(50), len(arr)))
+        kw = dict(normalize_x=nx, normalize_y=ny, scalex=sx, scaley=sy, log_x=lx, log_y=ly, transform_x=tf[tx], transform_y=tf[ty])
+        if rng.random() < 0.3:                          # defaults: normalize_x, not normalize_y, both axes logarithmic
+            for k_ in ("normalize_x", "normalize_y", "log_x", "log_y"):
+                del kw[k_]
+            nx, ny, lx, ly = True, False, True, True
+        def draw():
+            lines = pl.rankfrequency(arr, ax=ax, **kw) if own_ax else pl.rankfrequency(arr, **kw)
+            return (lines[0].get_xydata().tolist(), lines[0].axes is ax, ax.get_xscale(), ax.get_yscale(), ax.get_xlabel(), ax.get_ylabel(),
+                    len(ax.lines), 0 if other_ax is None else len(other_ax.lines))
+        real = core.call_real(draw)
+        plt.close("all")
         ops.append({"op": "rank_frequency", "normalize": nx, "data": [None if d is None else str(d) for d in data]})
-        metas.append((data, nx, ny, sx, sy, real))
-    for (data, nx, ny, sx, sy, real), a in zip(metas, core.run_driver_parallel(ops)):
-        meta = {"data": data, "normalize_x": nx, "normalize_y": ny, "scalex": sx, "scaley": sy}
+        metas.append((data, nx, ny, sx, sy, lx, ly, tx, ty, own_ax, real))
+    for (data, nx, ny, sx, sy, lx, ly, tx, ty, own_ax, real), a in zip(metas, core.run_driver_parallel(ops)):
+        meta = {"data": data, "normalize_x": nx, "normalize_y": ny, "scalex": sx, "scaley": sy, "log_x": lx, "log_y": ly,
+                "transform_x": tx, "transform_y": ty, "ax_passed": own_ax}
         chk.case(nontrivial_key=("rank", json.dumps(meta)))
         chk.count("rankfrequency")
         n = len(a[1])
-        want = [[float(Fraction(v)) * sx, sy * r / (n if ny else 1)] for v, r in a[1]]
-        ok = real[0] == "ok" and len(real[1]) == n and all(abs(p[0] - q[0]) <= 1e-12 * max(1, abs(q[0])) and abs(p[1] - q[1]) <= 1e-12 * max(1, abs(q[1]))
-                                                          for p, q in zip(real[1], want))
+        tfq = {None: (lambda v: v), "plus1": (lambda v: v + 1), "double": (lambda v: v * 2)}
+        want = [[tfq[tx](float(Fraction(v)) * sx), tfq[ty](sy * r / (n if ny else 1))] for v, r in a[1]]
+        ok = real[0] == "ok" and len(real[1][0]) == n and all(abs(p[0] - q[0]) <= 1e-12 * max(1, abs(q[0])) and abs(p[1] - q[1]) <= 1e-12 * max(1, abs(q[1]))
+                                                             for p, q in zip(real[1][0], want))
         if not ok:
             chk.violation("C19|rankfrequency|differs", "rankfrequency does not draw each non-missing value (as a frequency when normalised) "
-                          "in descending order against its 0-based rank", {**meta, "real": str(real)[:800], "model": want})
+                          "in descending order against its 0-based rank (scaled, then transformed)", {**meta, "real": str(real)[:800], "model": want})
+            continue
+        _, on_ax, xs_, ys_, xl, yl, n_lines, n_other = real[1]
+        if not on_ax or n_lines != 1 or n_other != 0:
+            chk.violation("C19|rankfrequency|axes", "rankfrequency does not draw exactly one line on the axes it was given (or on the current axes)", meta)
+        if (xs_ == "log") != lx or (ys_ == "log") != ly:
+            chk.violation("C19|rankfrequency|scale", f"axis scales ({xs_}, {ys_}) do not follow log_x={lx}, log_y={ly}", meta)
+        if xl != ("Clone frequency" if nx else "Clone size") or (not ny and yl != "Clone size rank"):
+            chk.violation("C19|rankfrequency|labels", f"axis labels ({xl!r}, {yl!r}) do not describe what is drawn (normalize_x={nx}, normalize_y={ny})", meta)
 
     # ---- label colours
     for _ in range(30 if not thorough else 300):
@@ -205,7 +234,14 @@ def run(chk):
         x = [coord() for _ in range(n)]
         y = [coord() for _ in range(n)]
         fig, ax = plt.subplots()
-        real = core.call_real(lambda: pl.density_scatter(x, y, ax=ax, discrete=True))
+        do_sort = rng.random() < 0.7
+        dkw = {} if do_sort and rng.random() < 0.5 else {"sort": do_sort}
+        if rng.random() < 0.3:
+            dkw["cbar"] = True
+        if rng.random() < 0.3:
+            dkw["s"] = 7
+        xin, yin = (np.array(x), pd.Series(y, index=rng.sample(range(40), n))) if rng.random() < 0.4 else (x, y)
+        real = core.call_real(lambda: pl.density_scatter(xin, yin, ax=ax, discrete=True, **dkw))
         chk.case(nontrivial_key=("scatter", tuple(x), tuple(y)))
         chk.count("density_scatter")
         if real[0] != "ok":
@@ -216,24 +252,54 @@ def run(chk):
             cols = [int(v) for v in np.asarray(sc.get_array()).tolist()]
             from collections import Counter
             cnt = Counter((float(a), float(b)) for a, b in zip(x, y))
-            if sorted(pts) != sorted(cnt) or len(pts) != len(set(pts)) or any(cnt[p] != c for p, c in zip(pts, cols)) or cols != sorted(cols):
-                chk.violation("C19|density_scatter|differs", "discrete density_scatter does not draw each distinct point once, coloured by its multiplicity", {"x": x, "y": y})
+            a = core.run_driver([{"op": "density_scatter", "sort": do_sort, "x": [str(Fraction(v)) for v in x], "y": [str(Fraction(v)) for v in y]}])[0]
+            want = [((float(Fraction(px)), float(Fraction(py))), int(c)) for px, py, c in a[1]]
+            if sorted(pts) != sorted(cnt) or len(pts) != len(set(pts)) or any(cnt[p] != c for p, c in zip(pts, cols)) or (do_sort and cols != sorted(cols)):
+                chk.violation("C19|density_scatter|differs", "discrete density_scatter does not draw each distinct point once, coloured by its multiplicity", {"x": x, "y": y, "kwargs": str(dkw)})
+            elif sorted(zip(pts, cols)) != sorted(want):
+                # (NumPy's argsort is not stable, so the order among equally dense points is not compared: C19_density_* state a permutation)
+                chk.violation("C19|density_scatter|vs-model", "discrete density_scatter does not draw the modelled (point, multiplicity) pairs",
+                              {"x": x, "y": y, "kwargs": str(dkw), "real": str(list(zip(pts, cols))), "model": str(want)})
+            if "s" in dkw and list(np.asarray(sc.get_sizes()).tolist()) != [7.0]:
+                chk.violation("C19|density_scatter|kwargs", "extra keyword arguments are not passed on to Axes.scatter", {"x": x, "y": y})
         plt.close(fig)
 
     # ---- similarity_clustermap: linkage/clusters as hierarchical clustering of the summed chain distances; split heat map
-    n_maps = 4 if not thorough else 25
+    n_maps = 6 if not thorough else 30
     for t in range(n_maps):
         n = rng.randint(3, 9)
         roots = ["CAVRD", "CASSLG", "CQQ"]
         al = [gen.mutate(rng, rng.choice(roots), "ACDEQ", rng.randint(0, 2)) or "C" for _ in range(n)]
         be = [gen.mutate(rng, rng.choice(roots), "ACDEQ", rng.randint(0, 2)) or "C" for _ in range(n)]
-        df = pd.DataFrame({"cdr3a": al, "cdr3b": be, "meta": [rng.choice("xy") for _ in range(n)]}, index=rng.sample(range(100), n))
-        single = rng.random() < 0.3
-        kws = dict(alpha_column="cdr3a", beta_column=None) if single else {}
-        if rng.random() < 0.5:
+        metav = [rng.choice("xy") for _ in range(n)]
+        ca, cb = rng.choice([("cdr3a", "cdr3b"), ("alpha_seq", "second"), ("A", "B")])
+        df = pd.DataFrame({ca: al, cb: be, "meta": metav, "other": [rng.choice("pq") for _ in range(n)]}, index=rng.sample(range(100), n))
+        single = rng.choice([None, None, "alpha", "beta"])
+        kws = {}
+        if (ca, cb) != ("cdr3a", "cdr3b") or single:
+            kws = dict(alpha_column=ca, beta_column=cb)
+        if single == "alpha":
+            kws["beta_column"] = None
+        elif single == "beta":
+            kws["alpha_column"] = None
+        red_blue = lambda s_: [(1.0, 0.0, 0.0) if v == "x" else (0.0, 0.0, 1.0) for v in s_]  # noqa: E731
+        meta_mode = rng.choice([None, "list", "dict", "mapper"])
+        if meta_mode == "list":
             kws["meta_columns"] = ["meta"]
+        elif meta_mode == "dict":
+            kws["meta_columns"] = {"meta": "Shown name"}
+        elif meta_mode == "mapper":
+            kws["meta_columns"] = ["meta"]
+            kws["meta_to_colors"] = [pl.labels_to_colors_hls, red_blue]
+        method, tcut, crit = "average", 6, "distance"
+        if rng.random() < 0.5:
+            method = rng.choice(["single", "complete", "average"])
+            kws["linkage_kws"] = dict(method=method)
+        if rng.random() < 0.5:
+            tcut, crit = rng.choice([(2, "distance"), (3, "distance"), (2, "maxclust"), (4, "distance")])
+            kws["cluster_kws"] = dict(t=tcut, criterion=crit)
         real = core.call_real(lambda: pl.similarity_clustermap(df, **kws))
-        meta = {"alpha": al, "beta": be, "single": single}
+        meta = {"alpha": al, "beta": be, "single": single, "kwargs": {k: str(v) for k, v in kws.items()}}
         chk.case(sample=meta if t == 0 else None, nontrivial_key=("clustermap", tuple(al), tuple(be), single))
         chk.count("similarity_clustermap")
         if real[0] != "ok":
@@ -243,20 +309,52 @@ def run(chk):
         cg, link, clus = real[1]
         da = np.array([levd(al[i], al[j]) for i in range(n) for j in range(i + 1, n)], dtype=float)
         db = np.array([levd(be[i], be[j]) for i in range(n) for j in range(i + 1, n)], dtype=float)
-        dist = da if single else da + db
-        wl = hc.linkage(dist, method="average", optimal_ordering=True)
-        wc = hc.fcluster(wl, t=6, criterion="distance")
+        dist = da if single == "alpha" else (db if single == "beta" else da + db)
+        wl = hc.linkage(dist, **(kws["linkage_kws"] if "linkage_kws" in kws else dict(method="average", optimal_ordering=True)))
+        wc = hc.fcluster(wl, t=tcut, criterion=crit)
         if not np.allclose(link, wl) or list(clus) != list(wc):
             chk.violation("C19|similarity_clustermap|linkage", "similarity_clustermap does not return the linkage / clusters of hierarchical "
-                          "clustering of the summed chain distances", meta)
+                          "clustering of the summed chain distances (with the linkage / cluster options given)", meta)
         ind = [int(i) for i in cg.dendrogram_row.reordered_ind]
-        lower = squareform(da).astype(int).tolist()
-        upper = (squareform(da) if single else squareform(db)).astype(int).tolist()
+        if ind != [int(i) for i in hc.dendrogram(wl, no_plot=True)["leaves"]]:
+            chk.violation("C19|similarity_clustermap|dendrogram-order", "the heat map is not ordered by the dendrogram of the returned linkage", meta)
+        lower = squareform(dist if single else da).astype(int).tolist()
+        upper = squareform(dist if single else db).astype(int).tolist()
         a = core.run_driver([{"op": "split_matrix", "lower": lower, "upper": upper, "ind": ind}])[0]
         got = np.asarray(cg.data2d).astype(int).tolist()
         if got != a[1]:
             chk.violation("C19|similarity_clustermap|heatmap", "the heat map does not show alpha distances below and beta distances above the "
                           "diagonal in dendrogram order", {**meta, "ind": ind, "real": got, "model": a[1]})
+        # colour bars: clusters (>= 2 members share one non-black colour, distinct between clusters; singletons black), then metadata per ROW
+        raw = list(cg.row_colors)
+        if raw and not hasattr(raw[0][0], "__len__"):      # a single colour bar comes back as a flat list of colours
+            raw = [raw]
+        rc = [[tuple(round(float(v), 9) for v in c[:3]) for c in col] for col in raw]
+        from collections import Counter
+        sizes = Counter(int(c) for c in clus)
+        black = (0.0, 0.0, 0.0)
+        by_cluster = {}
+        okc = len(rc) == (1 if meta_mode is None else 2) and len(rc[0]) == n
+        for c, col in zip(clus, rc[0] if okc else []):
+            if sizes[int(c)] < 2:
+                okc = okc and col == black
+            else:
+                okc = okc and col != black and by_cluster.setdefault(int(c), col) == col
+        okc = okc and len(set(by_cluster.values())) == len(by_cluster)
+        if not okc:
+            chk.violation("C19|similarity_clustermap|cluster-colours", "the cluster colour bar does not give equal clusters equal colours, "
+                          "distinct clusters distinct colours and singleton clusters black, row by row", {**meta, "clusters": [int(c) for c in clus], "colours": str(rc[:1])})
+        if meta_mode is not None and len(rc) == 2:
+            lab = list(cg.row_color_labels)
+            if lab != ["Cluster", "Shown name" if meta_mode == "dict" else "meta"]:
+                chk.violation("C19|similarity_clustermap|colour-labels", f"colour bars are labelled {lab}", meta)
+            col_of = {}
+            okm = all(col_of.setdefault(v, col) == col for v, col in zip(metav, rc[1])) and len(set(col_of.values())) == len(col_of)
+            if meta_mode == "mapper":
+                okm = okm and rc[1] == red_blue(metav)
+            if not okm:
+                chk.violation("C19|similarity_clustermap|meta-colours", "the metadata colour bar does not colour each row by its own metadata value",
+                              {**meta, "meta": metav, "colours": str(rc[1])})
         plt.close("all")
 
 
